@@ -263,7 +263,8 @@ def generate(streams: Streams, tier: str, index: int) -> dict:
         t, sched = t0, []
         for _ in range(n):
             sched.append([t, rng.randrange(len(frames))])
-            t = t + rng.choice([dt, dt, 2 * dt, 0.0625, 7.5])
+            # times need not be increasing for a directly driven tracker: repeat one sometimes
+            t = t + rng.choice([dt, dt, dt, 2 * dt, 0.0625, 7.5, 0])
         case["schedule"] = sched
         case["end"] = {"kind": frng.choice(["finalize"] * 4 + ["abort"]), "at": 0}
     return case
@@ -592,6 +593,15 @@ def execute(case: dict) -> Outcome:
         spy = Spy(real_gls, lspecs[0]["fail_at"] if lspecs else [],
                   lspecs[0]["fail_exc"] if lspecs else "ValueError", cnt, log)
         ia.get_length_scale = spy
+        # modules that bound the function at import time (e.g. `from .image_analysis import
+        # get_length_scale` at the top of droplets/trackers.py) get the spy as well
+        import sys
+        rebound = []
+        for mname, m in list(sys.modules.items()):
+            if mname.startswith("droplets") and m is not ia and getattr(m, "get_length_scale", None) is real_gls \
+                    and mname != "droplets":
+                m.get_length_scale = spy
+                rebound.append(m)
         try:
             for ti, (spec, tr) in enumerate(objs):
                 install_tap(ti, spec, tr)
@@ -604,6 +614,8 @@ def execute(case: dict) -> Outcome:
             run_exc = exc
         finally:
             ia.get_length_scale = real_gls
+            for m in rebound:
+                m.get_length_scale = real_gls
 
         # ---- history oracles
         for ti, (spec, tr) in enumerate(objs):
